@@ -137,6 +137,24 @@ def insRow (x : Rat × Rat × Nat) : List (Rat × Rat × Nat) → List (Rat × R
 def fmtRows (l : List (Rat × Rat × Nat)) : String :=
   fmtList (fun r => fmtTuple [fmtRat r.1, fmtRat r.2.1, fmtNat r.2.2]) (l.foldr insRow [])
 
+/-- the vocabulary of the theorems (Model/ScoreMidiSpec.lean), not the model of the exporter: what every track
+    must hold (notes routed to it, key / time signature and tempo events) and the notes in musical time -/
+def specText (mode : Nat) (a : Anacrusis) (mn vel : Nat) (ps : List PartIn) : Option String :=
+  (origin a (ps.map (·.base))).bind fun o =>
+  (mapToTrackChannel mode (noteKeys ps)).bind fun tcs =>
+  (maxList (tcs.map (·.1))).map fun m =>
+    let p := exportPpq ps mn
+    let ktc := (noteKeys ps).zip tcs
+    let trs := List.range (m + 1)
+    let tsPart := if a = .timeSigChange then "-" else fmtList (fun tr => fmtEvsSorted (trackTS a p o ktc ps tr)) trs
+    s!"{fmtRat o}|{fmtList (fun tr => fmtList fmtRec ((routedTo p o vel ktc ps tr).foldr insRec [])) trs}|{fmtList (fun tr => fmtEvsSorted (trackKS p o ktc ps tr)) trs}|{tsPart}|{fmtList (fun tr => fmtEvsSorted (trackTempo p o ps tr)) trs}|{fmtRows (scoreRows ps)}"
+
+def impText (r : Imported) : String :=
+  s!"{fmtList fmtPartOut r.parts}|{fmtList (fun t => fmtTuple [fmtInt t.1, fmtNat t.2]) (r.tempos.foldr insTempo [])}"
+
+def perfText (trs : List (List (Int × Msg))) : String :=
+  fmtList (fun tr => fmtList fmtRec ((pairTrack tr).foldr insRec [])) trs
+
 def handle (ts : List String) : String :=
   match ts with
   | "exp" :: rest =>
@@ -151,29 +169,32 @@ def handle (ts : List String) : String :=
       (saveScore mode a mn vel ps).map fun e =>
         s!"{e.ppq}|{fmtTracks e.tracks}|{fmtTracks (e.tracks.map (deltasFrom 0))}"
   | "spec" :: rest =>
-    -- the vocabulary of the theorems (Model/ScoreMidiSpec.lean), not the model of the exporter: what every track
-    -- must hold (notes routed to it, key / time signature and tempo events) and the notes in musical time
+    orErr <| (run (do let mode ← nat; let a ← pAnac; let mn ← nat; let vel ← nat; let ps ← list pPart
+                      pure (mode, a, mn, vel, ps)) rest).bind fun (mode, a, mn, vel, ps) => specText mode a mn vel ps
+  | "expspec" :: rest =>
+    -- one request for both: the model of the exporter, then the theorems' vocabulary
     orErr <| (run (do let mode ← nat; let a ← pAnac; let mn ← nat; let vel ← nat; let ps ← list pPart
                       pure (mode, a, mn, vel, ps)) rest).bind fun (mode, a, mn, vel, ps) =>
-      (origin a (ps.map (·.base))).bind fun o =>
-      (mapToTrackChannel mode (noteKeys ps)).bind fun tcs =>
-      (maxList (tcs.map (·.1))).map fun m =>
-        let p := exportPpq ps mn
-        let ktc := (noteKeys ps).zip tcs
-        let trs := List.range (m + 1)
-        let tsPart := if a = .timeSigChange then "-" else fmtList (fun tr => fmtEvsSorted (trackTS a p o ktc ps tr)) trs
-        s!"{fmtRat o}|{fmtList (fun tr => fmtList fmtRec ((routedTo p o vel ktc ps tr).foldr insRec [])) trs}|{fmtList (fun tr => fmtEvsSorted (trackKS p o ktc ps tr)) trs}|{tsPart}|{fmtList (fun tr => fmtEvsSorted (trackTempo p o ps tr)) trs}|{fmtRows (scoreRows ps)}"
+      (saveScoreMidi mode a mn vel ps).map fun e =>
+        s!"{e.ppq}|{fmtTracks e.tracks}|{fmtTracks (e.tracks.map (deltasFrom 0))}#{orErr (specText mode a mn vel ps)}"
   | "rows" :: rest =>
     -- the notes of an import in musical time (`importedRows`): origin, mode, ticks, tracks
     orErr <| (run (do let o ← rat; let mode ← nat; let ticks ← nat; let trs ← list pTrack; pure (o, mode, ticks, trs)) rest).bind
       fun (o, mode, ticks, trs) => (loadScoreMidi mode ticks trs).map fun r => fmtRows (importedRows o r)
   | "imp" :: rest =>
     orErr <| (run (do let mode ← nat; let ticks ← nat; let trs ← list pTrack; pure (mode, ticks, trs)) rest).bind fun (mode, ticks, trs) =>
-      (loadScoreMidi mode ticks trs).map fun r =>
-        s!"{fmtList fmtPartOut r.parts}|{fmtList (fun t => fmtTuple [fmtInt t.1, fmtNat t.2]) (r.tempos.foldr insTempo [])}"
+      (loadScoreMidi mode ticks trs).map impText
   | "perf" :: rest =>
-    orErr <| (run (list pTrack) rest).map fun trs =>
-      fmtList (fun tr => fmtList fmtRec ((pairTrack tr).foldr insRec [])) trs
+    orErr <| (run (list pTrack) rest).map perfText
+  | "rt" :: rest =>
+    -- one request for the readers of one file: flags 1 = performance reader, 2 = score importer, 4 = its notes in
+    -- musical time; origin, mode, ticks per quarter, tracks
+    orErr <| (run (do let fl ← nat; let o ← rat; let mode ← nat; let ticks ← nat; let trs ← list pTrack
+                      pure (fl, o, mode, ticks, trs)) rest).map fun (fl, o, mode, ticks, trs) =>
+      let imp := if fl / 2 % 2 = 1 || fl / 4 % 2 = 1 then loadScoreMidi mode ticks trs else none
+      "#".intercalate ((if fl % 2 = 1 then [perfText trs] else []) ++
+        (if fl / 2 % 2 = 1 then [orErr (imp.map impText)] else []) ++
+        (if fl / 4 % 2 = 1 then [orErr (imp.map fun r => fmtRows (importedRows o r))] else []))
   | "ppq" :: rest =>
     orErr <| (run (do let mn ← nat; let ds ← list nat; pure (mn, ds)) rest).bind fun (mn, ds) =>
       if ds.any (· = 0) || ds.isEmpty then none else some (fmtNat (ppq ds mn))
